@@ -1,4 +1,5 @@
 import Astria.Ledger.Authority
+import Astria.Ledger.Escrow
 /-
   C02, the frame direction: privileged state changes ONLY through an action signed by the
   authority that holds the privilege in the state the action executes on.
@@ -506,5 +507,117 @@ theorem refundPacket_priv_frame (s s' : State) (p : RefundPacket) (h : refundPac
       simp only [ha] at h
       injection h with h; subst h
       exact applyEffects_nopriv fx s s2 (refundPlan_holder s p fx hp) ha
+
+/-! ## every step of a history -/
+
+theorem payFees_nopriv (fees : List (String × Nat)) (s s' : State) (h : payFees s fees = some s') :
+    sudoOwned s' = sudoOwned s ∧ s'.relayers = s.relayers ∧
+    ∀ x, lookup s'.bridges x = lookup s.bridges x := by
+  induction fees generalizing s with
+  | nil => simp [payFees] at h; subst h; exact ⟨rfl, rfl, fun _ => rfl⟩
+  | cons e rest ih =>
+    obtain ⟨fa, n⟩ := e
+    simp only [payFees] at h
+    cases h1 : applyEffect s (.credit s.sudo fa n) with
+    | none => simp [h1] at h
+    | some s1 =>
+      simp only [h1] at h
+      obtain ⟨a1, a2, a3⟩ := applyEffect_priv_frame s s1 _ h1
+      obtain ⟨b1, b2, b3⟩ := ih s1 h
+      exact ⟨b1.trans (a1 (by simp [effHolder])), b2.trans (a2 (by simp [effHolder])),
+        fun x => (b3 x).trans (a3 x (by simp [effHolder]) (by simp [effHolder]))⟩
+
+/-- What the sudo address owns apart from the validator set: the block end never touches it. -/
+def sudoOwnedStatic (s : State) : String × String × List (Kind × FeeCfg) × List String ×
+    List (String × Nat) × Nat × Nat × Option (List (String × Nat)) :=
+  (s.sudo, s.ibcSudo, s.fees, s.feeAssets, s.pairs, s.numPairs, s.nextPairId, s.markets)
+
+/-- Block end: authorities, fee schedule, fee assets, oracle state, relayers and bridge accounts
+    are untouched; the only privileged state it changes is the validator set, and only by
+    applying the updates that (sudo-signed, by `execTx_priv_change`) transactions of the block
+    left pending. -/
+theorem endBlock_priv_frame (s : State) :
+    sudoOwnedStatic (endBlock s).2.2 = sudoOwnedStatic s ∧
+    (endBlock s).2.2.relayers = s.relayers ∧
+    (∀ x, lookup (endBlock s).2.2.bridges x = lookup s.bridges x) ∧
+    ((endBlock s).1 = true → (endBlock s).2.2.valUpdates = [] ∧
+      (endBlock s).2.2.vals = if s.postAspen then s.vals else applyValUpdates s.vals s.valUpdates) := by
+  unfold endBlock
+  simp only
+  split
+  · rename_i s3 hp
+    obtain ⟨p1, p2, p3⟩ := payFees_nopriv _ _ s3 hp
+    have q : sudoOwned s3 = sudoOwned { authorityEndBlock s with valUpdates := [] } := p1
+    refine ⟨?_, ?_, ?_, fun _ => ⟨?_, ?_⟩⟩
+    · have e1 := congrArg SudoOwned.sudo q
+      have e2 := congrArg SudoOwned.ibcSudo q
+      have e3 := congrArg SudoOwned.fees q
+      have e4 := congrArg SudoOwned.feeAssets q
+      have e5 := congrArg SudoOwned.pairs q
+      have e6 := congrArg SudoOwned.numPairs q
+      have e7 := congrArg SudoOwned.nextPairId q
+      have e8 := congrArg SudoOwned.markets q
+      simp only [sudoOwned] at e1 e2 e3 e4 e5 e6 e7 e8
+      simp only [sudoOwnedStatic, e1, e2, e3, e4, e5, e6, e7, e8]
+      unfold authorityEndBlock; split <;> rfl
+    · simp only [p2]; unfold authorityEndBlock; split <;> rfl
+    · intro x; simp only [p3 x]; unfold authorityEndBlock; split <;> rfl
+    · have := congrArg SudoOwned.valUpdates q
+      simpa [sudoOwned] using this
+    · have := congrArg SudoOwned.vals q
+      simp only [sudoOwned] at this
+      simp only [this]
+      unfold authorityEndBlock; split <;> simp_all
+  · exact ⟨rfl, rfl, fun _ => rfl, fun h => by simp at h⟩
+
+/-- **C02, frame direction, every step of every history** (`stepOp` of `Escrow.lean`:
+    transactions taking effect or failing, packets, block ends).  If the step changes the entry
+    of a bridge account, the relayer set, or anything the sudo address owns apart from the
+    validator set, then the step is a transaction and its signer held that privilege in the
+    state the step started on.  (The validator set additionally changes at block end, by the
+    pending updates only: `endBlock_priv_frame`.) -/
+theorem stepOp_priv_change (s : State) (op : Op) :
+    (sudoOwnedStatic (stepOp s op) ≠ sudoOwnedStatic s → ∃ t, op = .tx t ∧ s.sudo = t.signer) ∧
+    ((stepOp s op).relayers ≠ s.relayers →
+      ∃ t, op = .tx t ∧ (s.ibcSudo = t.signer ∨ s.sudo = t.signer)) ∧
+    (∀ x, lookup (stepOp s op).bridges x ≠ lookup s.bridges x →
+      ∃ t, op = .tx t ∧ ((∃ br, lookup s.bridges x = some br ∧ br.sudo = t.signer) ∨
+        (x = t.signer ∧ lookup s.bridges x = none))) := by
+  have static_of : ∀ a b : State, sudoOwned a = sudoOwned b → sudoOwnedStatic a = sudoOwnedStatic b := by
+    intro a b q
+    have e1 := congrArg SudoOwned.sudo q
+    have e2 := congrArg SudoOwned.ibcSudo q
+    have e3 := congrArg SudoOwned.fees q
+    have e4 := congrArg SudoOwned.feeAssets q
+    have e5 := congrArg SudoOwned.pairs q
+    have e6 := congrArg SudoOwned.numPairs q
+    have e7 := congrArg SudoOwned.nextPairId q
+    have e8 := congrArg SudoOwned.markets q
+    simp only [sudoOwned] at e1 e2 e3 e4 e5 e6 e7 e8
+    simp only [sudoOwnedStatic, e1, e2, e3, e4, e5, e6, e7, e8]
+  cases op with
+  | tx t =>
+    simp only [stepOp, stepTx]
+    cases h : execTx s t with
+    | error e => exact ⟨fun h => absurd rfl h, fun h => absurd rfl h, fun _ h => absurd rfl h⟩
+    | ok s' =>
+      obtain ⟨c1, c2, c3⟩ := execTx_priv_change s s' t h
+      refine ⟨fun hne => ⟨t, rfl, c1 (fun q => hne (static_of _ _ q))⟩,
+              fun hne => ⟨t, rfl, c2 hne⟩, fun x hne => ⟨t, rfl, c3 x hne⟩⟩
+  | recv p =>
+    obtain ⟨c1, c2, c3⟩ := recvPacket_priv_frame s p
+    exact ⟨fun hne => absurd (static_of _ _ c1) hne, fun hne => absurd c2 hne,
+           fun x hne => absurd (c3 x) hne⟩
+  | refund p =>
+    simp only [stepOp]
+    cases h : refundPacket s p with
+    | error e => exact ⟨fun h => absurd rfl h, fun h => absurd rfl h, fun _ h => absurd rfl h⟩
+    | ok s' =>
+      obtain ⟨c1, c2, c3⟩ := refundPacket_priv_frame s s' p h
+      exact ⟨fun hne => absurd (static_of _ _ c1) hne, fun hne => absurd c2 hne,
+             fun x hne => absurd (c3 x) hne⟩
+  | endBlock =>
+    obtain ⟨c1, c2, c3, _⟩ := endBlock_priv_frame s
+    exact ⟨fun hne => absurd c1 hne, fun hne => absurd c2 hne, fun x hne => absurd (c3 x) hne⟩
 
 end Astria.Ledger
